@@ -100,12 +100,12 @@ def validate(rep, label, hists, pid=PID, shard=2500):
     traces = C.pmap(facade.execute, [(h, n) for n, h in enumerate(hists)], chunk=32)
     verdicts, st = C.validate_traces("MCFacadeTrace", traces, cfg="FacadeTrace.cfg", shard=shard, heap="8g")
     rep.tlc_stats(f"FacadeTrace[{label}]", st, len(traces))
-    for h, t, (v, pos) in zip(hists, traces, verdicts):
+    for n, (h, t, (v, pos)) in enumerate(zip(hists, traces, verdicts)):
         if v != "ok":
             ops = [e["op"] for e in h]
             key = f"{label}:{v}:" + json.dumps(h[: max(1, pos)], sort_keys=True, separators=(",", ":"))
             rep.violation(key, {"engine": "trace", "module": "FacadeTrace", "clause": v, "event_index": pos - 1,
-                                "history": h, "observed": t["ev"][pos - 2] if pos >= 2 else None, "ops": ops})
+                                "history": h, "idx": n, "observed": t["ev"][pos - 2] if pos >= 2 else None, "ops": ops})
     rep.sample({"source": label, "history": hists[len(hists) // 2]})
     return traces
 
@@ -136,7 +136,7 @@ def run(tier, rep):
 
 
 def replay(case, rep):
-    t = facade.execute((case["history"], 0))
+    t = facade.execute((case["history"], case.get("idx", 0)))
     v, _ = C.validate_traces("MCFacadeTrace", [t], cfg="FacadeTrace.cfg")
     if v[0][0] != "ok":
         rep.violation(case.get("key", "replay"), case)
